@@ -2081,7 +2081,7 @@ class Cache:
         :raises Timeout: if database timeout occurs
 
         """
-        sql = self._sql
+        sql = self._sql_retry
         sql(
             'CREATE INDEX IF NOT EXISTS Cache_tag_rowid ON Cache(tag, rowid) '
             'WHERE tag IS NOT NULL'
@@ -2094,7 +2094,7 @@ class Cache:
         :raises Timeout: if database timeout occurs
 
         """
-        sql = self._sql
+        sql = self._sql_retry
         sql('DROP INDEX IF EXISTS Cache_tag_rowid')
         self.reset('tag_index', 0)
 
